@@ -9,6 +9,7 @@ Panic-freedom of the Rust code and of third-party parsers is NOT proved: it is e
 byte-level fuzz stream (shared with C07) and by hostile raw-QUIC sessions on the fabric.
 -/
 import AnemoModel.Props.C02
+import AnemoModel.Lemmas.Peers
 namespace Anemo
 open Gen
 
@@ -70,6 +71,52 @@ theorem C06_total (max : Nat) (sched : Bool) (es : List SrvEvent) :
     ((Srv.run max sched (.reading [] false) es).2.filter isInvoke).length ≤ 1 :=
   C02_at_most_once max sched _ es
 
+
+/-- the actions on stream `j` are the same with and without everything that happens on stream `s` -/
+theorem C06_honest_actions_unaffected (max : Nat) (c : ConnState) (evs : List (Nat × SrvEvent)) (s j : Nat) (hj : j ≠ s) :
+    ((Conn.trace max c evs).filter (fun x => x.1 = j)).map (·.2) =
+    ((Conn.trace max c (evs.filter (fun x => x.1 ≠ s))).filter (fun x => x.1 = j)).map (·.2) := by
+  apply C02_no_swap
+  rw [List.filter_filter]
+  apply List.filter_congr
+  intro x _
+  by_cases h : x.1 = j
+  · simp [h, hj]
+  · simp [h]
+
+/-- **Peer isolation of the registry**: after ANY history of registry operations -- connections of a
+hostile peer arriving, replacing each other, ending abruptly, in any interleaving with everybody
+else's -- the entry of peer `q` is the one reached by the operations about `q` alone. -/
+theorem C06_registry_isolation (own : PeerId) (ops : List Op) (s s' : Active) (q : PeerId)
+    (hs : lookupConn s.conns q = lookupConn s'.conns q) :
+    lookupConn (s.run own ops).conns q = lookupConn (s'.run own (ops.filter (fun o => o.peer = q))).conns q := by
+  induction ops generalizing s s' with
+  | nil => simpa [Active.run] using hs
+  | cons op t ih =>
+    by_cases h : op.peer = q
+    · simp only [Active.run, List.foldl_cons, List.filter_cons, h, decide_true, if_true]
+      exact ih _ _ (step_lookup_same own s s' op q h hs)
+    · simp only [Active.run, List.foldl_cons, List.filter_cons, h, decide_false]
+      exact ih _ _ (by rw [step_lookup_ne own s op q h]; exact hs)
+
+/-- **... and so are the events**: the subscriber sees, about peer `q`, exactly the events the operations
+about `q` alone would have produced -- a hostile peer cannot fabricate, suppress or reorder them. -/
+theorem C06_events_isolation (own : PeerId) (ops : List Op) (s s' : Active) (q : PeerId)
+    (hs : lookupConn s.conns q = lookupConn s'.conns q) (hl : eventsOf q s.log = eventsOf q s'.log) :
+    eventsOf q (s.run own ops).log = eventsOf q (s'.run own (ops.filter (fun o => o.peer = q))).log := by
+  induction ops generalizing s s' with
+  | nil => simpa [Active.run] using hl
+  | cons op t ih =>
+    by_cases h : op.peer = q
+    · simp only [Active.run, List.foldl_cons, List.filter_cons, h, decide_true, if_true]
+      exact ih _ _ (step_lookup_same own s s' op q h hs) (step_log_same own s s' op q hs hl h)
+    · simp only [Active.run, List.foldl_cons, List.filter_cons, h, decide_false]
+      exact ih _ _ (by rw [step_lookup_ne own s op q h]; exact hs) (by rw [step_log_ne own s op q h]; exact hl)
+
+/-! non-vacuity: a hostile peer 9 connects, is replaced, drops; peer 3's entry and events are those of its own history -/
+example :
+    let ops : List Op := [.add ⟨1, 3, .inbound⟩, .add ⟨2, 9, .inbound⟩, .add ⟨3, 9, .inbound⟩, .removeStable 9 3 .reset, .remove 9 .requested]
+    lookupConn (Active.run 5 {} ops).conns 3 = some ⟨1, 3, .inbound⟩ ∧ eventsOf 3 (Active.run 5 {} ops).log = [.newPeer 3] := by decide
 
 /-- **What a hostile peer can reach is the per-stream sequence** the confinement theorems are about (read off the source on this run): one task per bidirectional stream running read - stamp - serve raced with stop - write - finish - wait; unidirectional streams are dropped, datagrams ignored. -/
 theorem C06_rpc_path_is_translated :
